@@ -8,6 +8,9 @@
 Everything else in those functions must have exactly the recognised shape (statements compared
 after ast normalisation), otherwise the translation is refused (fail closed)."""
 import ast
+import copy
+import glob
+import os
 
 from trlib import TranslateError, _parse, _func, _body_wo_doc
 
@@ -133,6 +136,75 @@ def _require(fn, where, stmts):
             raise TranslateError(f'{where}: statement not found: {s}')
 
 
+FLATTENERS = ('ravel', 'flatten', 'reshape')
+ORDERS = {'C': 'OrdC', 'F': 'OrdF', 'A': 'OrdA', 'K': 'OrdK'}
+
+
+def _flat_call(n):
+    """(name, is_numpy_function) when n is a call of ravel / flatten / reshape, else None."""
+    if not isinstance(n, ast.Call):
+        return None
+    if isinstance(n.func, ast.Attribute) and n.func.attr in FLATTENERS:
+        is_np = isinstance(n.func.value, ast.Name) and n.func.value.id in ('np', 'numpy')
+        return n.func.attr, is_np
+    if isinstance(n.func, ast.Name) and n.func.id in FLATTENERS:
+        return n.func.id, True
+    return None
+
+
+def _order_of(n, where):
+    """The memory-order argument of a flattening call ('C' when absent); refuses anything that is
+    not a literal 'C' / 'F' / 'A' / 'K'."""
+    name, is_np = _flat_call(n)
+    node = None
+    for kw in n.keywords:
+        if kw.arg == 'order':
+            node = kw.value
+        elif kw.arg is None:
+            raise TranslateError(f'{where}: **kwargs in a call of {name}')
+    if node is None:
+        pos = None
+        if name in ('ravel', 'flatten'):
+            pos = 1 if is_np else 0          # np.ravel(a, order) | a.ravel(order)
+        elif name == 'reshape' and is_np:
+            pos = 2                          # np.reshape(a, shape, order)
+        if pos is not None and len(n.args) > pos:
+            node = n.args[pos]
+    if node is None:
+        return 'C'
+    if isinstance(node, ast.Constant) and node.value in ORDERS:
+        return node.value
+    raise TranslateError(f'{where}: order argument of {name} is not a literal: {_u(node)}')
+
+
+class _StripOrders(ast.NodeTransformer):
+    def visit_Call(self, node):
+        self.generic_visit(node)
+        if _flat_call(node):
+            node.keywords = [k for k in node.keywords if k.arg != 'order']
+        return node
+
+
+def _un(node):
+    """unparse modulo the order= keyword of flattening calls (the orders are translated separately
+    into gen_flatten_orders and judged by the Coq side, C20/Layout.v)."""
+    return ast.unparse(_StripOrders().visit(copy.deepcopy(node)))
+
+
+def _flatten_orders(repo):
+    """Every ravel / flatten / reshape call of pybaselines/two_d/*.py with its order."""
+    out = []
+    files = sorted(glob.glob(os.path.join(repo, 'pybaselines', 'two_d', '*.py')))
+    if len(files) < 8:
+        raise TranslateError(f'pybaselines/two_d has only {len(files)} python files')
+    for path in files:
+        rel = os.path.relpath(path, repo)
+        tree, _ = _parse(rel, repo)
+        sites = sorted((n.lineno, n.col_offset, _order_of(n, rel)) for n in ast.walk(tree) if _flat_call(n))
+        out.append((rel, [o for _, _, o in sites]))
+    return out
+
+
 def _require_body(fn, where, expected, loose=()):
     """The WHOLE body (docstring and comments aside) must be exactly the expected statement
     sequence -- an added branch (e.g. a fast path before the pinned statements) is refused.
@@ -149,7 +221,7 @@ def _require_body(fn, where, expected, loose=()):
                     for n in ast.walk(st)):
                 raise TranslateError(f'{where}: statement {i} is not a pure validation if')
             continue
-        if _u(st) != _u(ast.parse(exp).body[0]):
+        if _un(st) != _un(ast.parse(exp).body[0]):
             raise TranslateError(f'{where}: statement {i} is {_u(st)[:120]!r}, expected {exp[:120]!r}')
 
 
@@ -226,16 +298,19 @@ def _penalty(tree):
     _sig(fn, 'WhittakerSystem2D.reset_diagonals', (['self', 'lam', 'diff_order'], ['1', '2']))
     _require_body(fn, 'WhittakerSystem2D.reset_diagonals', [
         'if not self._using_svd:\n    super().reset_diagonals(lam, diff_order)\n    return',
-        "self.diff_order = _check_scalar_variable(diff_order, allow_zero=False, "
+        # (since bf1c47d the request is validated into locals first and stored just before the penalty)
+        "diff_order = _check_scalar_variable(diff_order, allow_zero=False, "
         "variable_name='difference order', two_d=True, dtype=int)",
-        'self.lam = _check_lam(lam, two_d=True)',
+        'lam = _check_lam(lam, two_d=True)',
         'values_rows, vectors_rows = self._calc_eigenvalues(self._num_points[0], '
-        'self.diff_order[0], self._num_bases[0])',
-        'if self.diff_order[0] == self.diff_order[1] and self._num_points[0] == self._num_points[1] '
+        'diff_order[0], self._num_bases[0])',
+        'if diff_order[0] == diff_order[1] and self._num_points[0] == self._num_points[1] '
         'and (self._num_bases[0] == self._num_bases[1]):\n'
         '    values_columns, vectors_columns = (values_rows, vectors_rows)\nelse:\n'
         '    values_columns, vectors_columns = self._calc_eigenvalues(self._num_points[1], '
-        'self.diff_order[1], self._num_bases[1])',
+        'diff_order[1], self._num_bases[1])',
+        'self.diff_order = diff_order',
+        'self.lam = lam',
         f'self.penalty_rows = np.repeat(self.lam[0] * values_rows, self._num_bases[{rep}])',
         f'self.penalty_columns = np.tile(self.lam[1] * values_columns, self._num_bases[{til}])',
         'self.penalty = self.penalty_rows + self.penalty_columns',
@@ -298,19 +373,53 @@ def gen_c20(repo):
         'output = self.basis.basis_r @ self.coef.reshape(self.basis._num_bases) @ self.basis.basis_c.T',
         'return output',
     ])
+    # the analytical (num_eigens=None) branch: setup flattens, PenalizedSystem2D.solve solves
+    at, _ = _parse('pybaselines/two_d/_algorithm_setup.py', repo)
+    fn = _method(at, '_Algorithm2D', '_setup_whittaker')
+    _sig(fn, '_Algorithm2D._setup_whittaker',
+         (['self', 'y', 'lam', 'diff_order', 'weights', 'copy_weights', 'num_eigens'], ['1', '2', 'None', 'False', 'None']))
+    _require_body(fn, '_Algorithm2D._setup_whittaker', [
+        "diff_order = _check_scalar_variable(diff_order, allow_zero=False, variable_name='difference order', "
+        "two_d=True, dtype=int)",
+        "if (diff_order > 3).any():\n    warnings.warn('difference orders greater than 3 can have numerical "
+        "issues; consider using a difference order of 2 or 1 instead', ParameterWarning, stacklevel=2)",
+        'weight_array = _check_optional_array(self._shape, weights, dtype=float, copy_input=copy_weights, '
+        'check_finite=self._check_finite, ensure_1d=False, axis=slice(None))',
+        'if self._sort_order is not None and weights is not None:\n    weight_array = weight_array[self._sort_order]',
+        'whittaker_system = WhittakerSystem2D(self._shape, lam, diff_order, num_eigens)',
+        'if not whittaker_system._using_svd:\n    y = y.ravel()\n    weight_array = weight_array.ravel()',
+        'return (y, weight_array, whittaker_system)',
+    ])
+    fn = _method(wt, 'PenalizedSystem2D', 'solve')
+    _sig(fn, 'PenalizedSystem2D.solve', (['self', 'y', 'weights', 'penalty', 'rhs_extra'], ['None', 'None']))
+    _require_body(fn, 'PenalizedSystem2D.solve', [
+        'if penalty is None:\n    lhs = self.add_diagonal(weights)\nelse:\n    '
+        'penalty.setdiag(penalty.diagonal() + weights)\n    lhs = penalty',
+        'rhs = weights * y',
+        'if rhs_extra is not None:\n    rhs = rhs + rhs_extra',
+        'return self.direct_solve(lhs, rhs)',
+    ])
+    fn = _method(wt, 'PenalizedSystem2D', 'direct_solve')
+    _sig(fn, 'PenalizedSystem2D.direct_solve', (['self', 'lhs', 'rhs'], []))
+    _require_body(fn, 'PenalizedSystem2D.direct_solve', ['return spsolve(lhs, rhs)'])
+    orders = _flatten_orders(repo)
     wd, wa, wo = _make_btwb(wt, 'WhittakerSystem2D', None)
     sd, sa, so = _make_btwb(st, 'SplineBasis2D', 'csr_object')
     rep, til = _penalty(wt)
     out = ['(* GENERATED by tools/gen_c20.py from pybaselines/two_d/_whittaker_utils.py and',
            '   pybaselines/two_d/_spline_utils.py -- do not edit. *)',
            'From Coq Require Import ZArith List Bool.',
-           'From PB Require Import C20.Model.',
+           'From PB Require Import C20.Model C20.Layout.',
            'Import ListNotations.',
            'Open Scope Z_scope.',
            '',
            _cfg('gen_cfg_whittaker', fs, wd, wa, wo, rep, til),
            '(* SplineBasis2D has no eigenvalue penalty; the pen_* fields repeat the Whittaker ones *)',
-           _cfg('gen_cfg_spline', fs, sd, sa, so, rep, til)]
+           _cfg('gen_cfg_spline', fs, sd, sa, so, rep, til),
+           '(* the order argument of every ravel / flatten / reshape call of pybaselines/two_d/*.py',
+           '   (default = OrdC), file by file: ' + ', '.join(f'{os.path.basename(r)}:{len(o)}' for r, o in orders) + ' *)',
+           'Definition gen_flatten_orders : list order :=\n  ['
+           + '; '.join(ORDERS[o] for _, os_ in orders for o in os_) + '].\n']
     return '\n'.join(out)
 
 
